@@ -21,6 +21,7 @@ TOKENS = {
     "literal_cstr": r'(?<![A-Za-z0-9_])c"',
     "const_cstr": r'(?<![A-Za-z0-9_])c"|from_bytes_with_nul_unchecked',
     "core_ffi_c": r"::core::ffi::c_int\b",
+    "lib_core_ffi_cstr": r"::core::ffi::CStr\b",     # a library path, not a row of the table: core::ffi::CStr exists from 1.64 (C14/Spec.v)
     "thiscall_abi": r'extern\s+"thiscall"',
     "vectorcall_abi": r'extern\s+"vectorcall"',
     "c_unwind_abi": r'extern\s+"C-unwind"',
@@ -179,8 +180,88 @@ Eval vm_compute in mismatches 0 cases.
     ck.obligation("correspondence:defaults==newest stable release and its newest edition", okd, "impl %s/%s, table %s/%s" % (dt, de, exp_t, last_av))
     if not okd:
         ck.violation("C14-default", "default target/edition is not the newest stable release / its newest edition", {"implementation": [dt, de], "expected": [exp_t, last_av]})
+    # ---- the `--rust-target` string: RustTarget::from_str / Display vs C14/Parse.v, and the pre-release rule on the implementation
+    parse_tie(ck, editions, rows, latest)
     # ---- end to end: CLI token scan
     cli_scan(ck, bindgen, editions, rows, nightly, latest, quick)
+
+
+def parse_tie(ck, editions, rows, latest):
+    """(a) every generated target string: the implementation's answer (Display of the parsed target, or an error) == C14/Parse.answer, compared
+    inside Coq; (b) the property itself on the implementation: `1.N.P-nightly` must not enable any feature or edition that arrived with 1.N,
+    must be rejected when 1.N is the oldest supported release, and `-beta` must answer like the release."""
+    vlib.coq_check_properties(ck, "theories/C14/ParseProperties.v")
+    r = ck.rng
+    minors_all = sorted({m for m, _ in rows} | {m for _, m in editions})
+    earliest = min(m for m, _ in rows)
+    U = 18446744073709551615
+    minors = sorted(set([0, 1, earliest - 1, earliest, earliest + 1, latest, latest + 1, 999, U, U + 1] + minors_all + [m + 1 for m in minors_all] + [r.randrange(0, latest + 5) for _ in range(10)]))
+    sufs = ["", "-beta", "-beta.1", "-beta.22", "-nightly", "-", "-beta.", "-betax", "-alpha", "-nightly.1", "-Nightly", "-nightly-x", "-beta-nightly", "-rc1"]
+    strs = ["nightly", "Nightly", "nightly-", "", "1", "1.", "1..", ".1", "2.5", "2.5.0-nightly", "01.70", "1.70.0.0", "1.-5", "1.7e1", "1.0x10", " 1.70", "1.70 ", "1. 70", "1.+70", "1.+70.+3",
+            "+1.70", "1.070.007", "1.70.", "1..70", "1.70.0-nightly", "0.70", "1.70.+", "1.+", "1.+-nightly", "10.70", "1,70", "v1.70", "1.70.0+meta", "stable", "beta", "1.x"]
+    for m in minors:
+        for pa in ("", ".0", ".7", ".%d" % U, ".%d" % (U + 1)):
+            for su in sufs:
+                if pa in ("", ".0") or r.random() < 0.25:
+                    strs.append("1.%d%s%s" % (m, pa, su))
+    strs = sorted(set(strs) - {""})    # (the harness skips empty input lines)
+    impl = vlib.bgv("target", [vlib.enc(x) for x in strs])
+    if len(impl) != len(strs):
+        raise TieBroken("harness-run:target", "%d answers for %d strings" % (len(impl), len(strs)))
+    ans = []
+    for x, a in zip(strs, impl):
+        ck.evaluations += 1
+        ans.append("ERR" if a.startswith("ERR") else a.split("\t")[0])
+    ck.nontrivial.update(("target-string", x) for x, a in zip(strs, ans) if a != "ERR")
+    ck.count("target_strings_compared", len(strs))
+    ck.count("target_strings_accepted", sum(1 for a in ans if a != "ERR"))
+    ck.count("target_strings_nightly_prerelease_accepted", sum(1 for x, a in zip(strs, ans) if a != "ERR" and x.endswith("-nightly")))
+    q = lambda t: '"' + t.replace('"', '""') + '"'
+    body = """From Coq Require Import NArith List Bool String.
+From BG Require Import C14.Model C14.Parse.
+From BGgen Require Import C14_Table.
+Import ListNotations. Open Scope N_scope. Open Scope string_scope.
+Eval vm_compute in (mismatches T 0 [%s]).
+""" % ";\n ".join("(%s, %s)" % (q(x), q(a)) for x, a in zip(strs, ans))
+    rc, out = vlib.coq_eval("c14_parse", body)
+    ls = vlib.parse_coq_nlists(out) if rc == 0 else []
+    if rc != 0 or len(ls) != 1 or ls[0] is None:
+        raise TieBroken("coq-eval:C14/Parse", out[-2000:])
+    bad = ls[0]
+    ck.obligation("correspondence:RustTarget::from_str/Display==C14/Parse.answer", not bad, "%d strings (%d accepted), %d differ" % (len(strs), sum(1 for a in ans if a != "ERR"), len(bad)))
+    # (b) the rule itself, on the implementation
+    found = False
+    byrow = {m: [f for f, _ in fs] for m, fs in rows}
+    edmin = {m: e for e, m in editions}
+    eds = [e for e, _ in editions]
+    cases = [(m, e) for m in sorted(set(byrow) | set(edmin)) for e in eds]
+    res = vlib.bgv("feat", ["1.%d.0-nightly\t%d" % (m, e) for m, e in cases])
+    for (m, e), rr in zip(cases, res):
+        ck.evaluations += 1
+        if rr.startswith("ERR"):
+            continue
+        if m == earliest:
+            found = True
+            ck.violation("C14-prerelease-of-earliest-accepted", "1.%d.0-nightly is accepted although the release before 1.%d is not supported" % (m, m), {"rust_target": "1.%d.0-nightly" % m, "impl": rr[:300]})
+            continue
+        on = [f for f in byrow.get(m, []) if re.search(r"\b%s=1\b" % f, rr)]
+        if on:
+            found = True
+            ck.violation("C14-prerelease-too-new:" + on[0], "feature %s, stabilised in Rust 1.%d, is enabled for the pre-release target 1.%d.0-nightly (edition %d)" % (on[0], m, m, e),
+                         {"feature": on[0], "rust_target": "1.%d.0-nightly" % m, "edition": e, "RustFeatures::new": rr, "how": "bgv feat <<< '1.%d.0-nightly\\t%d'  (or bindgen data/c14/trigger.h --rust-target 1.%d.0-nightly)" % (m, e, m)})
+        if edmin.get(m) == e and "@edition_available=1" in rr:
+            found = True
+            ck.violation("C14-prerelease-edition-too-new:%d" % e, "edition %d, which arrived with Rust 1.%d, is available for the pre-release target 1.%d.0-nightly" % (e, m, m), {"edition": e, "rust_target": "1.%d.0-nightly" % m, "impl": rr[:300]})
+    d = dict(zip(strs, ans))
+    for x, a in d.items():
+        if x.endswith("-beta") and x[:-5] in d and "-" not in x[:-5] and d[x[:-5]] != a:
+            found = True
+            ck.violation("C14-beta-differs", "a -beta target string is not read as the release it leads to", {"string": x, "answer": a, "release_answer": d[x[:-5]]})
+    if bad and not found:
+        i = bad[0]
+        ck.broken("correspondence", "RustTarget::from_str vs C14/Parse", json.dumps({"string": strs[i], "implementation": ans[i], "first_differences": [(strs[j], ans[j]) for j in bad[:8]]}))
+    elif bad:
+        ck.notes["parse_model_differences"] = [(strs[j], ans[j]) for j in bad[:8]]
 
 
 def search_impl(ck, kept):
@@ -227,7 +308,11 @@ Eval vm_compute in map (fun c => (if edition_available T (snd c) (fst c) then 1 
         t, e = c
         cmd = [bindgen, TRIG, "--rust-target", "nightly" if t == "nightly" else "1.%d" % t[0], "--rust-edition", str(e)] + CLI_FLAGS
         rc, o, err = sh2(cmd, timeout=120)
-        return rc, o, err
+        # the same without --use-core: std paths, and gates that only apply to one of the two prefixes (seed C14-2 as re-made after fix 2aa7f965)
+        rc2, o2, err2 = sh2([x for x in cmd if x != "--use-core"], timeout=120)
+        if rc == 0 and rc2 == 0:
+            return 0, o + "\n" + o2, err
+        return (rc or rc2), o, (err if rc else err2)
     with ThreadPoolExecutor(max_workers=vlib.NCPU) as ex:
         outs = list(ex.map(one, combos))
     present = {}
